@@ -581,6 +581,74 @@ def _lookup_grain_table(sesparse):
                       note="grain directory entry -> grain table position (SE-sparse: 0x10000000 tag, table index * table size in sectors)")
 
 
+# ------------------------------------------------------------------------------------------------ compressed grain fetch
+class GrainModel(Model):
+    def __init__(self, embedded_lba):
+        super().__init__()
+        from pyvc import cstruct_ext
+
+        c = cvm()
+        self.hyps = []
+        self.embedded = embedded_lba
+        self.fsize, self.farr = self.file_field("self.fh", "fh")
+        self.obj_field("self.header")
+        self.gsz = self.int_field("self.header.grain_size", 0, U64, self.hyps)
+        # flags: only the EMBEDDED_LBA bit matters here -> case parameter
+        lba_bit = int(c.c_vmdk.SPARSEFLAG_EMBEDDED_LBA)
+        self.fields["self.header.flags"] = IntV(z3.IntVal(lba_bit if embedded_lba else 0))
+        self.globals["SECTOR_SIZE"] = IntV(z3.IntVal(512))
+        self.globals["c_vmdk"] = ObjV("c_vmdk")
+        self.globals["zlib"] = ObjV("zlib")
+        self.fields["c_vmdk.SPARSEFLAG_EMBEDDED_LBA"] = IntV(z3.IntVal(lba_bit))
+        self.methods[("c_vmdk", "SparseGrainLBAHeaderOnDisk")] = lambda eng, st, args, node: cstruct_ext.parse_bytes(eng, st, self, c.c_vmdk.SparseGrainLBAHeaderOnDisk, "<", args[0], node)
+        self.methods[("c_vmdk", "uint32")] = self.u32
+        self.methods[("zlib", "decompressobj")] = lambda eng, st, args, node: ObjV("dobj")
+        self.methods[("dobj", "decompress")] = self.inflate
+        self.inflated = []
+        self.hyps += [self.fsize >= 0, byte_range_axiom(self.farr)]
+
+    def u32(self, eng, st, args, node):
+        b = args[0]
+        eng.may_raise("EOFError", st, b.n >= 4, node)
+        return IntV(le(b.at, z3.IntVal(0), 4))
+
+    def inflate(self, eng, st, args, node):
+        data = args[0]
+        mx = eng.as_int(args[1], st, node) if len(args) > 1 else None
+        if mx is None:
+            eng.ob("inflate.bounded", st, z3.BoolVal(False), node)
+        r = fresh_bytes("inflated")
+        st.hyps.append(z3.And(r.n >= 0, r.n <= (mx if mx is not None else z3.IntVal(1 << 62))))
+        st.ghost["inflated"] = st.ghost.get("inflated", ()) + ((data, mx, r),)
+        return r
+
+
+def _read_compressed_grain(embedded):
+    s0 = z3.Int("sector0")
+
+    def post(eng, st, rv):
+        m = eng.model
+        hl = 12 if embedded else 4
+        at = lambda i: z3.Select(m.farr, i)  # noqa: E731
+        # SPEC (technote, stream-optimized grains): marker = [lba u64][size u32][deflate data] (or [size u32][data] without embedded LBA)
+        cl = le(at, s0 * 512 + (8 if embedded else 0), 4)
+        if not st.ghost.get("inflated"):
+            raise Unsupported("no inflate call found on this path")
+        data, mx, r = st.ghost["inflated"][-1]
+        return [("input_length", data.n == cl), ("input_is_the_grain_payload", forall_k(data.n, lambda k: data.at(k) == at(s0 * 512 + hl + k))),
+                ("output_bounded_by_grain", z3.And(mx == m.gsz * 512 if mx is not None else z3.BoolVal(False), ret_bytes(rv).n <= m.gsz * 512)),
+                ("cost", st.ghost["io"] <= 512 + zmax(z3.IntVal(0), hl + cl - 512))]
+
+    hl = 12 if embedded else 4
+    return FnContract(FILE, "SparseDisk._read_compressed_grain", ["C02", "C11", "C13"], lambda: GrainModel(embedded),
+                      params=lambda m: {"self": ObjV("self"), "sector": IntV(s0)},
+                      # wf: the grain marker and its payload lie inside the file
+                      requires=lambda m: m.hyps + [s0 >= 0, s0 * 512 + 512 <= m.fsize,
+                                                   s0 * 512 + hl + le(lambda i: z3.Select(m.farr, i), s0 * 512 + (8 if embedded else 0), 4) <= m.fsize],
+                      post=post, case="embedded-lba" if embedded else "plain-marker", shifts=r"^$",
+                      note="proves what the assumed contract used by read_sectors relies on: the inflate input is exactly the stored payload, the output is bounded by the grain size, and the fetch costs one sector plus the payload")
+
+
 replay = make_replay("vmdk")
 bounded = make_bounded("vmdk", "vmdk.small_scope", quick_specs=40, thorough_specs=300)
 
@@ -592,7 +660,7 @@ def trusted(pid):
 
 def contracts(repo):
     return [_get_runs("functional"), _read_sectors(repo), _raw_read_sectors(), _vmdk_read_sectors(), _vmdk_read(), _get_runs("termination"),
-            _lookup_grain(False, repo), _lookup_grain(True, repo), _lookup_grain_table(False), _lookup_grain_table(True)]
+            _lookup_grain(False, repo), _lookup_grain(True, repo), _lookup_grain_table(False), _lookup_grain_table(True), _read_compressed_grain(True), _read_compressed_grain(False)]
 
 
 
